@@ -33,10 +33,10 @@ class MultichainPolicyIteration(Plans):
             max_iterations=self.max_iterations
         )
         state_gain, action_gain, state_bias, action_bias, _, iterations = results
+        # same tie tolerance as the improvement steps of the iteration itself
+        # (gains carry numerical noise well above 1e-10)
         gain_max_actions = np.isclose(
             action_gain, action_gain.max(-1, keepdims=True),
-            atol=10**(-self.VALUE_DECIMAL_PRECISION),
-            rtol=0
         )
         if mdp.discount_rate < 1.0:
             # the gain of a discounted problem is identically 0; ignore numerical noise in it
